@@ -4,7 +4,7 @@ from __future__ import annotations
 import ast
 from typing import List, Optional, Set
 
-from ..an import value_alts, flows_from_calls, count_on_paths, cut, is_method_call, yields_at
+from ..an import reaching_defs, value_alts, flows_from_calls, count_on_paths, cut, is_method_call, yields_at
 from ..cfg import calls_at, node_exprs
 from ..core import Checker
 from ..loader import AnalysisError, Func, norm, walk_expr, walk_own
@@ -47,6 +47,71 @@ def check(ck: Checker) -> None:
     _update(ck)
     _md5(ck)
     _savepair(ck)
+    _statkeys(ck)
+
+
+def _statkeys(ck: Checker) -> None:
+    """The stat record used for tokens / Meta: its identity fields come from ONE stat result, and the
+    keys the producers write are the keys the consumers read."""
+    prog = ck.prog
+    li = prog.func("fsutils", "_localfs_info")
+    g = ck.cfg(li)
+    produced = {}
+    for n in g.nodes.values():
+        if n.kind == "stmt" and n.ast is not None:
+            for dct in [x for x in walk_expr(n.ast) if isinstance(x, ast.Dict)]:
+                if any(isinstance(k, ast.Constant) and k.value == "ino" for k in dct.keys):
+                    for k, v in zip(dct.keys, dct.values):
+                        if isinstance(k, ast.Constant):
+                            produced[k.value] = (n, v)
+    ck.floor("C13.statkeys", len([k for k in produced if k in ("ino", "mtime", "size", "mode")]), 4, "identity fields in the local stat record")
+    srcs = {}
+    for fld in ("ino", "mtime", "size", "mode"):
+        n, v = produced[fld]
+        base = v.value if isinstance(v, ast.Attribute) else None
+        if base is None:
+            alts = [a for a in value_alts(g, n, v, depth=3) if isinstance(a, ast.Attribute)]
+            base = alts[0].value if alts else None
+        if isinstance(base, ast.Name):
+            defs = tuple(sorted(d.id for d in reaching_defs(g, n.id, base.id)))
+            srcs[fld] = (base.id, defs)
+        else:
+            srcs[fld] = (norm(v), ())
+    ck.require(len(set(srcs.values())) == 1, "C13.statkeys", li, produced["ino"][0],
+               "inode, mtime, size and mode of the stat record come from one and the same stat result",
+               f"the stat record mixes different stat results ({ {k: v[0] + str(list(v[1])) for k, v in srcs.items()} }): for a symlink the validity token describes the link while the bytes hashed are the target's")
+    # consumers read the keys the producer writes
+    tok = None
+    for f in prog.module("hashfile.state").funcs.values():
+        if f.cls is None and f.parent is None and any(isinstance(x, ast.Call) and call_name(x) == "tokenize" for x in walk_own(f.node)):
+            tok = f
+    if tok is not None:
+        used = {x.slice.value for x in walk_own(tok.node) if isinstance(x, ast.Subscript) and isinstance(x.slice, ast.Constant) and isinstance(x.slice.value, str)}
+        ck.require(used <= set(produced), "C13.statkeys", tok, tok.node, "the token reads keys the stat record provides", f"the token reads keys {sorted(used - set(produced))} that the local stat record never provides", construct="token keys vs stat record")
+    fi = prog.func("hashfile.meta", "Meta.from_info")
+    meta = prog.cls("hashfile.meta", "Meta")
+    fields = [s_.target.id for s_ in meta.node.body if isinstance(s_, ast.AnnAssign) and isinstance(s_.target, ast.Name) and "ClassVar" not in norm(s_.annotation)]
+    from .tree_common import resolve_const
+
+    for r in [x for x in walk_own(fi.node) if isinstance(x, ast.Return) and isinstance(x.value, ast.Call) and call_name(x.value) == "Meta"]:
+        bound = {}
+        for i, a in enumerate(r.value.args):
+            if i < len(fields):
+                bound[fields[i]] = a
+        for k in r.value.keywords:
+            bound[k.arg] = k.value
+        for fld, key in (("inode", "ino"), ("mtime", "mtime"), ("size", "size")):
+            a = bound.get(fld)
+            okk = False
+            got = None
+            if isinstance(a, ast.Call) and is_method_call(a, "get") and a.args:
+                got = resolve_const(ck, fi, a.args[0])
+                okk = got == key
+            elif isinstance(a, ast.Subscript):
+                got = resolve_const(ck, fi, a.slice)
+                okk = got == key
+            ck.require(okk, "C13.statkeys", fi, r, f"Meta.{fld} is read from the stat record's '{key}'",
+                       f"Meta.{fld} is read from key {got!r} but stat records carry it under '{key}': the field is always None and drops out of the metadata comparison that guards carried-over hashes", construct=f"Meta.from_info / {fld}")
 
 
 def _token_funcs(ck: Checker, fn: Func) -> List[Func]:
@@ -421,6 +486,12 @@ def _savepair(ck: Checker) -> None:
                     ok = items and used <= bound and isinstance(alt.elt, ast.Tuple) and len(alt.elt.elts) == 3
                     why = norm(alt)
             ck.require(ok, "C13.savepair", gh, c, "each saved row (path, hash, info) is taken from one item of the fresh-hash dict", f"saved rows are not projections of single dict items: {why}")
+    add = prog.func("hashfile.db", "HashFileDB.add")
+    his = [c for c in walk_own(add.node) if isinstance(c, ast.Call) and call_name(c) == "HashInfo"]
+    for c in his:
+        nm = next((k.value for k in c.keywords if k.arg == "name"), c.args[0] if c.args else None)
+        ck.require(nm is not None and norm(nm) == "self.hash_name", "C13.savepair", add, c, "state rows for added objects are labelled with the store's own algorithm",
+                   f"state rows for added objects are labelled {norm(nm) if nm is not None else None} instead of the store's hash_name: a digest of another algorithm is later served as a hit")
     sm = prog.func("hashfile.state", "State.save_many")
     g = ck.cfg(sm)
     apps = [(n, c) for n in g.nodes.values() for c in calls_at(n) if is_method_call(c, "append") and c.args and isinstance(c.args[0], ast.Tuple)]
